@@ -197,7 +197,11 @@ func c04Second(w *W, t ref.Stamp, fractions bool) {
 	if back.ToYmdHms() != key {
 		w.Violatef("jd-inverse", key, "NewSolarFromJulianDay(JD(%s)) = %s", key, back.ToYmdHms())
 	}
-	w.Eval(2)
+	// the exported helper behind it, called with the fields
+	if u := SolarUtil.GetJulianDay(t.Y, t.M, t.D, t.H, t.Mi, t.S); math.Abs(u-t.JD()) > 1e-8 {
+		w.Violatef("jd", key+"/util", "SolarUtil.GetJulianDay(%s)=%.9f, reference %.9f", key, u, t.JD())
+	}
+	w.Eval(3)
 	if !fractions {
 		return
 	}
@@ -210,7 +214,8 @@ func c04Second(w *W, t ref.Stamp, fractions bool) {
 				continue
 			}
 			so := solarOf(o)
-			if so.IsBefore(s) != (os2 < t.Secs()) || so.IsAfter(s) != (os2 > t.Secs()) || s.IsBefore(so) != (t.Secs() < os2) || s.IsAfter(so) != (t.Secs() > os2) {
+			if so.IsBefore(s) != (os2 < t.Secs()) || so.IsAfter(s) != (os2 > t.Secs()) || s.IsBefore(so) != (t.Secs() < os2) || s.IsAfter(so) != (t.Secs() > os2) ||
+				SolarUtil.IsBefore(o.Y, o.M, o.D, o.H, o.Mi, o.S, t.Y, t.M, t.D, t.H, t.Mi, t.S) != (os2 < t.Secs()) || SolarUtil.IsBefore(t.Y, t.M, t.D, t.H, t.Mi, t.S, o.Y, o.M, o.D, o.H, o.Mi, o.S) != (t.Secs() < os2) {
 				w.Violatef("order", key+"|"+fmtStamp(o), "IsBefore/IsAfter between %s and %s disagree with the second count (%+d s)", key, fmtStamp(o), sg*dlt)
 			}
 			w.Eval(1)
@@ -235,6 +240,9 @@ func c04Second(w *W, t ref.Stamp, fractions bool) {
 			w.Violatef("jd-real", fmt.Sprintf("%s%+.3f", key, f), "NewSolarFromJulianDay(%.10f) gave invalid %s", x, fmtStamp(g))
 		} else if g.Secs() != want {
 			w.Violatef("jd-real", fmt.Sprintf("%s%+.3f", key, f), "NewSolarFromJulianDay(%.10f) (=%s %+0.3fs) = %s, nearest second is %s", x, key, f, fmtStamp(g), fmtStamp(ref.FromSecs(want)))
+		} else if t.S%4 == 0 || want/86400 != t.Secs()/86400 {
+			// (always when rounding carried the instant into another civil day)
+			sameAsFresh(w, key, fmt.Sprintf("NewSolarFromJulianDay(%+.3fs)", f), got)
 		}
 		w.Eval(1)
 	}
@@ -272,6 +280,10 @@ func c04StepCase(w *W, i int) {
 	j := ref.JDN(t.Y, t.M, t.D)
 	key := fmtStamp(t)
 	w.Cur("C04 steps from " + key)
+	routes := i%3 == 0
+	if routes && i%2 == 0 {
+		digest1(s) // a receiver that has already answered every question (whatever it memoised must not travel with a step)
+	}
 	// day steps
 	var n int
 	if i%2 == 0 {
@@ -286,8 +298,13 @@ func c04StepCase(w *W, i int) {
 		if stampOf(r) != want {
 			w.Violatef("nextday", fmt.Sprintf("%s%+d", key, n), "%s.NextDay(%d) = %s, reference %s", key, n, r.ToYmdHms(), fmtStamp(want))
 		}
-		if r2 := s.Next(n, false); stampOf(r2) != want {
+		r2 := s.Next(n, false)
+		if stampOf(r2) != want {
 			w.Violatef("nextday", fmt.Sprintf("%s%+d/next", key, n), "%s.Next(%d,false) = %s, reference %s", key, n, r2.ToYmdHms(), fmtStamp(want))
+		}
+		if routes {
+			sameAsFresh(w, key, fmt.Sprintf("NextDay(%d)", n), r)
+			sameAsFresh(w, key, fmt.Sprintf("Next(%d,false)", n), r2)
 		}
 		if math.Abs(r.GetJulianDay()-s.GetJulianDay()-float64(n)) > 1e-7 {
 			w.Violatef("nextday-jd", fmt.Sprintf("%s%+d", key, n), "JD changed by %.9f after NextDay(%d)", r.GetJulianDay()-s.GetJulianDay(), n)
@@ -337,6 +354,13 @@ func c04StepCase(w *W, i int) {
 		if stampOf(r) != want {
 			w.Violatef("nexthour", fmt.Sprintf("%s%+dh", key, h), "%s.NextHour(%d) = %s, reference %s", key, h, r.ToYmdHms(), fmtStamp(want))
 		}
+		if math.Abs(r.GetJulianDay()-s.GetJulianDay()-float64(h)/24) > 1e-7 {
+			w.Violatef("nexthour", fmt.Sprintf("%s%+dh/jd", key, h), "JD changed by %.9f after NextHour(%d)", r.GetJulianDay()-s.GetJulianDay(), h)
+		}
+		if routes {
+			sameAsFresh(w, key, fmt.Sprintf("NextHour(%d)", h), r)
+			sameAsFresh(w, key, fmt.Sprintf("NextHour(%d)", h%24), s.NextHour(h%24))
+		}
 		w.Eval(1)
 		w.Distinct(1)
 	}
@@ -366,6 +390,8 @@ func c04StepCase(w *W, i int) {
 			}
 			if !ok {
 				w.Violatef("nextmonth", fmt.Sprintf("%s%+dm", key, mo), "%s.NextMonth(%d) = %s, expected month %04d-%02d with the day kept or clamped", key, mo, r.ToYmdHms(), ty, tmn)
+			} else if routes {
+				sameAsFresh(w, key, fmt.Sprintf("NextMonth(%d)", mo), r)
 			}
 		}
 		w.Eval(1)
@@ -396,6 +422,8 @@ func c04StepCase(w *W, i int) {
 			}
 			if !ok {
 				w.Violatef("nextyear", fmt.Sprintf("%s%+dy", key, yr), "%s.NextYear(%d) = %s, expected year %d with the day kept or clamped", key, yr, r.ToYmdHms(), ty)
+			} else if routes {
+				sameAsFresh(w, key, fmt.Sprintf("NextYear(%d)", yr), r)
 			}
 		}
 		w.Eval(1)
@@ -404,6 +432,19 @@ func c04StepCase(w *W, i int) {
 	if i == 0 {
 		w.Sample("steps", map[string]interface{}{"start": key, "days": n, "hours": h, "months": mo, "years": yr})
 	}
+}
+
+// sameAsFresh: a Solar reached by stepping or through a Julian day is the same object, as far as any accessor can
+// tell, as one constructed from its fields (whatever the object stepped from had already been asked).
+func sameAsFresh(w *W, key, route string, r *calendar.Solar) {
+	g := stampOf(r)
+	if !g.Valid() || g.Y < minYear || g.Y > maxYear {
+		return
+	}
+	if a, b := digest1(r), digest1(solarOf(g)); a != b {
+		w.Violatef("route", key+"/"+route, "the Solar %s reached by %s from %s differs from NewSolar of the same fields: %s", fmtStamp(g), route, key, diffDigests(b, a))
+	}
+	w.Eval(1)
 }
 
 func floorDiv64(a, b int64) int64 {
